@@ -103,7 +103,10 @@ Allowed(sc, s, e) ==
       s2 == Render(sc, s, ctx, ord, e.nv)
       ties == IF ctx.kind = "fb" /\ ctx.test # 0 THEN TiePix(sc, ctx, e.ord) ELSE {}
       planes == exactOrder \/ OrderFree(ctx)
-  IN /\ planes => \A p \in 1..sc.np : p \in ties \/ (e.c[p] = s2.c[p] /\ e.z[p] = s2.z[p])
+  IN \* (e.win: the targets were the planes themselves, windows of larger parent planes, or windows of
+     \* windows; e.outw counts the parent cells outside the window that changed)
+     /\ e.outw = 0
+     /\ planes => \A p \in 1..sc.np : p \in ties \/ (e.c[p] = s2.c[p] /\ e.z[p] = s2.z[p])
      \* pieces of zero on-screen area have no facing: culling may keep or drop them
      /\ LET slackLo == IF ctx.cull = 0 THEN 0 ELSE SeqSum(sc.ndeg, SelectSeq(e.ord, LAMBDA t : Drawn(sc, ctx, t)))
             slackHi == IF ctx.cull = 0 THEN 0 ELSE SeqSum(sc.ndeg, SelectSeq(e.ord, LAMBDA t : ~Drawn(sc, ctx, t)))
@@ -119,6 +122,14 @@ Allowed(sc, s, e) ==
 \* successor state: the observed one (so that one rejected call does not
 \* cascade), with the statistics the relation fixed
 Apply(sc, s, e) == [c |-> e.c, z |-> e.z, st |-> e.st]
+
+\* ---------------------------------------------------------------- scene
+\* The footprints are taken from the implementation (one triangle, depth test off, opaque shader).
+\* They must at least be what the statement says about that configuration: every fragment the
+\* rasteriser generated for the triangle (sc.cover[t][p] = 1: pixel p lies in one of its scanlines)
+\* passed and was written, and nothing else was.
+SceneOK(sc) ==
+  \A t \in 1..Len(sc.fp) : \A p \in 1..sc.np : (sc.fp[t][p] # -1) <=> (sc.cover[t][p] = 1)
 
 \* ---------------------------------------------------------------- theorems
 \* checked by MC_Target on the specification itself
